@@ -215,7 +215,11 @@ func (fv *FuncVC) havoc(ms *modSet, tag string) {
 		}
 	}
 	for v := range ms.slices {
-		cur := fv.vals[v].T
+		val, defined := fv.vals[v]
+		if !defined || val.T.S == "" {
+			continue // the slice value is computed inside the loop: nothing to forget yet
+		}
+		cur := val.T
 		if o, ok := st.slices[v]; ok {
 			cur = o
 		}
